@@ -424,6 +424,7 @@ def render(node: ast.AST) -> str:
 
 
 # --------------------------------------------------------------------------------------------- engine
+NEVER_NONE = {"os.path.dirname", "os.path.basename", "os.path.join", "os.path.abspath", "os.path.realpath", "os.path.normpath", "os.path.expanduser", "os.path.relpath", "os.fsdecode", "os.fsencode", "os.fspath", "os.getcwd"}
 _GR_CACHE: dict[int, ast.FunctionDef] = {}
 
 
@@ -949,6 +950,23 @@ class Enumerator:
                     ast.fix_missing_locations(inner)
                     return self.exec_block([inner], st)
 
+                #   for t in map(f, A): body                  ==  for x in A: t = f(x) ; body      (lazy, element by element)
+                #   for t in itertools.starmap(f, A): body    ==  for x in A: t = f(*x) ; body
+                is_map = isinstance(it0, ast.Call) and isinstance(it0.func, ast.Name) and it0.func.id == "map" and "map" not in st.env
+                is_smap = isinstance(it0, ast.Call) and lib(it0.func) == "itertools.starmap"
+                if (is_map or is_smap) and len(it0.args) == 2 and not it0.keywords and not any(isinstance(a, ast.Starred) for a in it0.args):
+                    f_, a_ = it0.args
+                    xv = f"$m{s.lineno}_{getattr(s, 'col_offset', 0)}"
+                    arg = ast.Name(xv, ast.Load())
+                    call = ast.Call(f_, [ast.Starred(arg, ast.Load())] if is_smap else [arg], [])
+                    inner = ast.For(ast.Name(xv, ast.Store()), a_, [ast.Assign([s.target], call)] + s.body, [], None)
+                    for sub in ast.walk(inner):
+                        if not hasattr(sub, "lineno"):
+                            ast.copy_location(sub, s)
+                    ast.copy_location(inner, s)
+                    ast.fix_missing_locations(inner)
+                    return self.exec_block([inner], st)
+
                 def pure(e):
                     return all(isinstance(n, (ast.Tuple, ast.List, ast.Name, ast.Constant, ast.Attribute, ast.Load, ast.Store)) for n in ast.walk(e))
 
@@ -958,6 +976,9 @@ class Enumerator:
                     ast.fix_missing_locations(inner)
                     return self.exec_block([inner], st)
             g = self._generator_of(s.iter, st)
+            active = self.__dict__.setdefault("_splicing", [])
+            if g is not None and g[0].name in active:
+                g = None  # a generator that recurses into itself (a tree walk): the inner call stays an opaque iterable
             if g is not None and not loop_level_jump(s.body, (ast.Break,)):
                 s_ = s
                 if loop_level_jump(s.body):
@@ -968,7 +989,11 @@ class Enumerator:
                     ast.fix_missing_locations(s_)
                 spliced = self._splice_generator(s_, *g)
                 if spliced is not None:
-                    return self.exec_block(spliced, st)
+                    active.append(g[0].name)
+                    try:
+                        return self.exec_block(spliced, st)
+                    finally:
+                        active.pop()
         for st1, it, exc in self.ev(s.iter, st):
             if exc:
                 out.append((st1, ("raise", exc)))
@@ -1640,6 +1665,39 @@ class Enumerator:
                 raise AnalysisError(f"comprehension at line {getattr(e, 'lineno', '?')} leaves by {o[0]}")
         return out
 
+    def _is_sentinel(self, name: str, st: St) -> bool:
+        """A module-level `NAME = object()` of the current module, never re-bound, not imported elsewhere, whose every use is the
+        default of a three-argument getattr or an operand of `is` / `is not`: nothing but the name itself is that object."""
+        m = st.module
+        if m is None or name in st.env:
+            return False
+        cache = self.__dict__.setdefault("_sentinels", {})
+        key = (m.name, name)
+        if key in cache:
+            return cache[key]
+        v = getattr(m, "consts", {}).get(name)
+        ok = isinstance(v, ast.Call) and isinstance(v.func, ast.Name) and v.func.id == "object" and not v.args and not v.keywords
+        if ok:
+            stores = [n for n in ast.walk(m.tree) if isinstance(n, ast.Name) and n.id == name and isinstance(n.ctx, ast.Store)]
+            ok = len(stores) == 1
+        if ok:
+            allowed = set()
+            for n in ast.walk(m.tree):
+                if isinstance(n, ast.Call) and isinstance(n.func, ast.Name) and n.func.id == "getattr" and len(n.args) == 3 and isinstance(n.args[2], ast.Name):
+                    allowed.add(id(n.args[2]))
+                if isinstance(n, ast.Compare) and all(isinstance(o, (ast.Is, ast.IsNot)) for o in n.ops):
+                    for x in [n.left, *n.comparators]:
+                        if isinstance(x, ast.Name):
+                            allowed.add(id(x))
+            loads = [n for n in ast.walk(m.tree) if isinstance(n, ast.Name) and n.id == name and isinstance(n.ctx, ast.Load)]
+            ok = bool(loads) and all(id(n) in allowed for n in loads)
+        if ok:
+            for m2 in self.P.modules.values():
+                if m2 is not m and any(t == f"{m.name}.{name}" for t in m2.imports.values()):
+                    ok = False
+        cache[key] = ok
+        return ok
+
     def e_IfExp(self, e: ast.IfExp, st: St):
         out = []
         for st2, truth in self.branch(e.test, st):
@@ -1769,11 +1827,23 @@ class Enumerator:
         f = e.func
         if self.cfg.desugar_next_search and isinstance(f, ast.Name) and f.id == "next" and f.id not in st.env and len(e.args) == 2 and not e.keywords and isinstance(e.args[0], ast.GeneratorExp) and len(e.args[0].generators) == 1 and e.args[0].generators[0].ifs and not e.args[0].generators[0].is_async:
             return self._e_next_search(e, st)
+        # any(map(f, A))  ==  any(f(x) for x in A)
+        if isinstance(f, ast.Name) and f.id in ("any", "all") and f.id not in st.env and len(e.args) == 1 and not e.keywords and isinstance(e.args[0], ast.Call) and isinstance(e.args[0].func, ast.Name) and e.args[0].func.id == "map" and "map" not in st.env and len(e.args[0].args) == 2 and not e.args[0].keywords and not any(isinstance(a, ast.Starred) for a in e.args[0].args):
+            mf, ma = e.args[0].args
+            gen = ast.GeneratorExp(ast.Call(mf, [ast.Name("_m", ast.Load())], []), [ast.comprehension(ast.Name("_m", ast.Store()), ma, [], 0)])
+            e = ast.copy_location(ast.Call(f, [gen], []), e)
+            ast.fix_missing_locations(e)
         if isinstance(f, ast.Name) and f.id in ("any", "all") and f.id not in st.env and len(e.args) == 1 and not e.keywords and isinstance(e.args[0], (ast.GeneratorExp, ast.ListComp)) and st.depth < self.cfg.max_inline_depth and not any(g.is_async for g in e.args[0].generators):
             comp = e.args[0]
             inner = [n for part in [comp.elt] + [c for g in comp.generators for c in g.ifs] for n in ast.walk(part) if isinstance(n, ast.Call)]
             if any(self._would_inline(c, st) for c in inner):
                 return self._e_any_all(e, st)
+        # getattr(o, "name", D)  ==  o.name if hasattr(o, "name") else D   (D a private sentinel of the module: see _is_sentinel)
+        if isinstance(f, ast.Name) and f.id == "getattr" and "getattr" not in st.env and len(e.args) == 3 and not e.keywords and isinstance(e.args[1], ast.Constant) and isinstance(e.args[1].value, str) and e.args[1].value.isidentifier() and isinstance(e.args[2], ast.Name) and self._is_sentinel(e.args[2].id, st):
+            alt = ast.IfExp(ast.Call(ast.Name("hasattr", ast.Load()), [e.args[0], e.args[1]], []), ast.Attribute(e.args[0], e.args[1].value, ast.Load()), e.args[2])
+            ast.copy_location(alt, e)
+            ast.fix_missing_locations(alt)
+            return self.ev(alt, st)
         # receiver first, then arguments
         if isinstance(f, ast.Attribute):
             heads = [(s2, ast.Attribute(r, f.attr, ast.Load()), x) for s2, r, x in self.ev(f.value, st)]
@@ -2136,6 +2206,17 @@ class Enumerator:
                     return [(st, (a == b) != neg)]
                 except Exception:
                     pass
+        # identity with a private sentinel of the module: the name itself is it, an attribute read / call result / literal is not
+        if isinstance(t, ast.Compare) and len(t.ops) == 1 and isinstance(t.ops[0], ast.Is):
+            for a_, b_ in ((t.left, t.comparators[0]), (t.comparators[0], t.left)):
+                if isinstance(a_, ast.Name) and self._is_sentinel(a_.id, st):
+                    if isinstance(b_, ast.Name) and b_.id == a_.id:
+                        return [(st, True != neg)]
+                    if isinstance(b_, (ast.Attribute, ast.Call, ast.Constant, ast.Subscript)):
+                        return [(st, False != neg)]
+        # the result of a path function of the standard library (a str / bytes) is never None
+        if isinstance(t, ast.Compare) and len(t.ops) == 1 and isinstance(t.ops[0], ast.Is) and isinstance(t.comparators[0], ast.Constant) and t.comparators[0].value is None and isinstance(t.left, ast.Call) and self._libname(t.left.func, st) in NEVER_NONE:
+            return [(st, False != neg)]
         # a tuple / list / dict / set display is never None
         if isinstance(t, ast.Compare) and len(t.ops) == 1 and isinstance(t.ops[0], ast.Is) and isinstance(t.comparators[0], ast.Constant) and t.comparators[0].value is None and isinstance(t.left, (ast.Tuple, ast.List, ast.Dict, ast.Set, ast.ListComp, ast.JoinedStr)):
             return [(st, False != neg)]
